@@ -188,14 +188,21 @@ def run_property(spec, tier, seed, replay=None, jobs=16):
                     known_hits.setdefault(e["id"], [e, 0])[1] += 1
                     continue
                 failed_obls.append((r, o))
+    b_by_fn = {}
+    for b in b_results:
+        for v in b["violations"]:
+            if match_known(known, v) is None:
+                b_by_fn.setdefault(v.get("function", "").split(".")[-1], v)
     for r, o in failed_obls:
         viol_count += 1
+        witness = b_by_fn.get(r["function"].split(".")[-1].split(":")[-1])
         payload = {"property": pid, "kind": "deductive-obligation-failed", "function": r["function"],
+                   "failing_input_from_bounded_search": witness,
                    "obligation": o["name"], "clause": o["clause"], "where": o["where"],
                    "solver_verdict": o["status"], "solver_output": o["detail"], "source": r.get("source"),
                    "note": "no failing input attached by the solver (quantified heap VC); see bounded violations of the same run, if any"}
         path = write_replay(pid, payload)
-        lines.append("VIOLATION property=%s replay=%s obligation=%s no-failing-input-found" % (pid, path, o["name"]))
+        lines.append("VIOLATION property=%s replay=%s obligation=%s%s" % (pid, path, o["name"], "" if witness else " no-failing-input-found"))
     for kid, (e, n) in sorted(known_hits.items()):
         lines.append("KNOWN-FINDING: property=%s %s [%s; %d matching case(s) this run]" % (pid, e["what"], kid, n))
     if viol_count and status == 0:
